@@ -26,6 +26,7 @@ import random
 import re
 import time
 import traceback
+import unicodedata
 
 import falcon
 import falcon.asgi
@@ -1072,6 +1073,41 @@ def uri_program(s):
     return prog
 
 
+def sweep_code_points(stride):
+    """Code points for the file-name / IRI sweep: every assigned non-ASCII code point of planes 0-1 whose
+    lower/upper/title/casefold form, NFD/NFKD/NFKC form or case-mapped NFKD form contains an ASCII character (the ones a
+    case-insensitive or normalising ASCII filter can mistake for ASCII), all of U+0080..U+024F, and a
+    stride over everything else up to U+10FFFF (surrogates excluded)."""
+    out = []
+    for cp in range(0x80, 0x110000):
+        if 0xD800 <= cp <= 0xDFFF:
+            continue
+        if cp < 0x250 or cp % stride == 0:
+            out.append((cp, cp < 0x250))
+            continue
+        if cp >= 0x20000:
+            continue
+        ch = chr(cp)
+        if unicodedata.category(ch) == 'Cn':
+            continue
+        nk = unicodedata.normalize('NFKD', ch)
+        forms = (ch.lower(), ch.upper(), ch.title(), ch.casefold(), nk, unicodedata.normalize('NFKC', ch),
+                 unicodedata.normalize('NFD', ch), nk.lower(), nk.upper(), nk.casefold())
+        if any(c < '\x80' for f in forms for c in f):
+            out.append((cp, True))
+    return out
+
+
+def max_age_boundary_values():
+    """ints, decimal strings and floats around the sizes where a conversion could lose precision"""
+    vals = []
+    for base in (2 ** 31, 2 ** 32, 2 ** 53, 2 ** 63, 2 ** 64, 10 ** 18, 10 ** 21):
+        for d in (-2, -1, 0, 1, 2, 7):
+            n = base + d
+            vals += [n, -n, str(n), str(-n), float(n), True]
+    return vals
+
+
 ESCAPE_COUNTS = list(range(0, 41)) + [63, 64, 65, 127, 128, 129, 255, 256, 257, 1023, 1024, 1025]
 ESCAPE_DEFECTS = ['', '%', '%2', '%zz', '%G0', '%0g', ' ', '\u00e9']
 
@@ -1496,6 +1532,30 @@ def run(rec):
             rec.count('uri.many_escapes_then_malformed')
         if defect == '' and n >= 9:
             rec.count('uri.many_escapes_wellformed')
+    # -- phase G: code point sweep through the file-name helpers and Location (20 code points per response)
+    cps = sweep_code_points(61 if small else 7)
+    for j in range(0, len(cps), 20):
+        if (j // 20) % rec.nshards != rec.shard:
+            continue
+        prog = []
+        for k, (cp, special) in enumerate(cps[j:j + 20]):
+            ch = chr(cp)
+            prog.append(['prop', 'downloadable_as' if k % 2 else 'viewable_as', 'f' + ch + '.pdf'])
+            prog.append(['prop', 'location', '/d/' + ch])
+            rec.count('sweep.special' if special else 'sweep.stride')
+        run_program(rec, prog, True, key=('G', cps[j][0]))
+        rec.count('phase.G')
+    # -- phase H: Max-Age around 2**31 .. 10**21 as int, decimal string and float (4 cookies per response)
+    mav = max_age_boundary_values()
+    for j in range(0, len(mav), 4):
+        if (j // 4) % rec.nshards != rec.shard:
+            continue
+        prog = [['cookie', 'm%d' % k, 'v', {'max_age': v}] for k, v in enumerate(mav[j:j + 4])]
+        run_program(rec, prog, bool((j // 4) % 2))
+        rec.count('phase.H')
+        for v in mav[j:j + 4]:
+            if not isinstance(v, (float, bool)) and abs(int(v)) > 2 ** 53:
+                rec.count('maxage.exact_above_2_53')
     # -- phase E: directed histories (branch classes named by the floors)
     for j, prog in enumerate(directed_programs()):
         if j % rec.nshards != rec.shard:
@@ -1534,6 +1594,11 @@ def run(rec):
     rec.floor('phase.C', 200)
     rec.floor('phase.E', 110)
     rec.floor('phase.F', 1000)
+    rec.floor('phase.G', 700)
+    rec.floor('phase.H', 60)
+    rec.floor('sweep.special', 2000)
+    rec.floor('sweep.stride', 10000)
+    rec.floor('maxage.exact_above_2_53', 80)
     rec.floor('uri.many_escapes_then_malformed', 400)
     rec.floor('uri.many_escapes_wellformed', 80)
     for c, nmin in [('mon.headers', 2000), ('mon.get_header', 4000), ('mon.prop_read', 10000), ('get.recased', 500),
